@@ -140,12 +140,12 @@ func (x *Exec) cexQuery(o *Obligation) string {
 	var b strings.Builder
 	b.WriteString(x.preambleNoQuant())
 	lines := x.lines[:o.Prefix]
-	decls, _, negGoal := preInstantiate(nil, o.PC, o.Goal, 0)
-	cands := []*sx_{{atom: "0"}, {atom: "1"}, {atom: "2"}}
+	decls, _, negGoal := preInstantiate(nil, o.PC, o.Goal, 0, nil)
+	cands := map[string][]*sx_{"Int": {{atom: "0"}, {atom: "1"}, {atom: "2"}}}
 	for _, d := range decls {
 		b.WriteString(d + "\n")
-		f := strings.Fields(d)
-		cands = append(cands, &sx_{atom: f[1]})
+		f := strings.Fields(strings.Trim(d, "()"))
+		cands[f[2]] = append(cands[f[2]], &sx_{atom: f[1]})
 	}
 	for _, l := range lines {
 		if strings.HasPrefix(l, "(assert") && (strings.Contains(l, "(forall ") || strings.Contains(l, "(exists ")) {
